@@ -571,6 +571,37 @@ def nontrivial(case, obs):
     return sig, nt
 
 
+def small_scope_cases(rnd, stride=1):
+    """Exhaustive single-operation cases over small universes: every set state over {1,2,3} x every mutator x every
+    argument over {1,2,3,"1",None}; every dict state over keys {1,2} / values {1,2} x every mutator x keys
+    {1,2,3,"1",None} x values {1,2,"2",None} (update / |= with every list of at most two pairs)."""
+    import itertools
+    sets, dicts = [], []
+    su = [1, 2, 3, 101, 200]
+    subsets = [list(c) for r in range(0, 4) for c in itertools.combinations(su, r)]
+    for vk in ("VInt", "VCInt", "VAll"):
+        for st in ([list(c) for r in range(0, 4) for c in itertools.combinations([1, 2, 3], r)]):
+            ops = [[k, x] for k in ("Add", "Discard", "Remove") for x in su] + [["Pop"], ["Clear"]]
+            for a in subsets:
+                ops += [["Update", [a]], ["Ior", "set", a], ["Iand", "set", a], ["Isub", "set", a], ["Ixor", "set", a],
+                        ["DiffUpdate", [a]], ["InterUpdate", [a]], ["SymDiffUpdate", a], ["Assign", True, a, "plain"]]
+            sets += [dict(kind="set", vk=vk, init=st, ops=[op]) for op in ops]
+    ku, vu = [1, 2, 3, 101, 200], [1, 2, 102, 200]
+    pairs = [[k, v] for k in ku for v in vu]
+    plists = [[]] + [[p] for p in pairs] + [[p, q] for p in pairs for q in pairs]
+    states = [[[k, v] for k, v in zip((1, 2), c) if v is not None] for c in itertools.product((None, 1, 2), repeat=2)]
+    for kk, vk in (("VInt", "VInt"), ("VCInt", "VInt"), ("VCInt", "VCInt"), ("VAll", "VInt")):
+        for st in states:
+            ops = [["SetItem", k, v] for k, v in pairs] + [["DelItem", k] for k in ku] + [["SetDefault", k, v] for k, v in pairs]
+            ops += [["Pop", k, d] for k in ku for d in (None, 1, 200)] + [["PopItem"], ["Clear"]]
+            ops += [[m, asmap, pl] for m in ("Update", "Ior") for asmap in (True, False) for pl in plists[::7]]
+            ops += [["Assign", True, pl, "plain"] for pl in plists[::11]]
+            dicts += [dict(kind="dict", kk=kk, vk=vk, init=st, ops=[op]) for op in ops]
+    if stride > 1:
+        sets, dicts = sets[rnd.randrange(stride)::stride], dicts[rnd.randrange(stride)::stride]
+    return sets, dicts
+
+
 def corpus():
     cs = []
     # an extended-slice assignment whose third element is invalid on a list already at maxlen (the example of the
@@ -681,9 +712,9 @@ def run(ctx):
                        "case is non-trivial if some step raises; distinct = distinct JSON of the case")
     rnd = random.Random(ctx.seed)
     quick = ctx.tier == "quick"
-    counts = dict(list=(500, 12, 8), set=(250, 10), dict=(300, 10), nested=(300, 10), ndict=(250, 10), deep=(250, 10)) \
+    counts = dict(list=(350, 12, 8), set=(180, 10), dict=(200, 10), nested=(200, 10), ndict=(170, 10), deep=(180, 10)) \
         if quick else \
-        dict(list=(8000, 30, 20), set=(4000, 25), dict=(5000, 25), nested=(5000, 25), ndict=(3500, 25), deep=(4000, 25))
+        dict(list=(6000, 30, 20), set=(3000, 25), dict=(4000, 25), nested=(4000, 25), ndict=(3000, 25), deep=(3000, 25))
     if ctx.replay:
         rep = json.load(open(ctx.replay))["replay"]
         groups = {rep["case"]["kind"]: [rep["case"]]} if "case" in rep else {}
@@ -697,6 +728,11 @@ def run(ctx):
         groups["nested"] += [gen_nested(rnd, ctx, counts["nested"][1]) for _ in range(counts["nested"][0])]
         groups["ndict"] += [gen_ndict(rnd, ctx, counts["ndict"][1]) for _ in range(counts["ndict"][0])]
         groups["deep"] += [gen_deep(rnd, ctx, counts["deep"][1]) for _ in range(counts["deep"][0])]
+        ssets, sdicts = small_scope_cases(rnd, stride=60 if quick else 1)
+        groups["set"] += ssets
+        groups["dict"] += sdicts
+        ctx.count("small-scope:set", len(ssets))
+        ctx.count("small-scope:dict", len(sdicts))
     jobs = []
     for kind, cases in groups.items():
         if not cases:
@@ -706,18 +742,19 @@ def run(ctx):
         jobs.append(dict(driver=DRIVER, cases=cases, to_term=TERMS[kind], header=header(kind), case_type=KINDS[kind][2],
                          key_fn=key_fn, describe=describe, nontrivial=nontrivial, tag="c04" + kind,
                          relation="C04.Corr.%s (model = implementation on every step)" % KINDS[kind][0]))
-    hist.run_parallel(ctx, jobs)
+    # thorough shards are 1 000 long histories each (about 1 GB of coqc): at most two kinds at a time
+    hist.run_parallel(ctx, jobs, workers=6 if quick else 2)
     if not ctx.replay:
         # single-operation grid on bounded List traits (the C05 grid, model and law of C04): every mutator x every
         # index / slice x every replacement list on lists at, below and above their bounds
         if quick:
             cfgs = [dict(target="obj", vk=rnd.choice(["VInt", "VCInt"]), n=n, minlen=mn, maxlen=mx)
-                    for (n, mn, mx) in rnd.sample([(1, 1, 2), (2, 0, 2), (3, 2, 4), (2, 2, 2), (3, 1, 3)], 2)]
+                    for (n, mn, mx) in rnd.sample([(1, 1, 2), (2, 0, 2), (3, 2, 4), (2, 2, 2), (3, 1, 3)], 1)]
             gb, gbs = 2, 250
         else:
             cfgs = [dict(target="obj", vk=vk, n=n, minlen=mn, maxlen=mx)
                     for vk in ("VInt", "VCInt")
-                    for (n, mn, mx) in ((0, 0, 0), (0, 0, 2), (1, 1, 1), (1, 0, 3), (2, 2, 2), (2, 1, 3), (2, 0, None),
+                    for (n, mn, mx) in ((0, 0, 0), (0, 0, 2), (1, 1, 1), (2, 2, 2), (2, 1, 3), (2, 0, None),
                                         (3, 3, 3), (3, 1, 4), (4, 0, 4), (5, 2, 6))]
             gb, gbs = 6, 500
         c05.run_grid(ctx, cfgs, gb, gbs, "C04 single-operation grid on bounded List traits",
@@ -725,5 +762,12 @@ def run(ctx):
                                   key_fn=key_fn, describe=describe, nontrivial=nontrivial),
                      mk_case=lambda c: dict(c, kind="list"), driver=DRIVER)
         mutator_obligation(ctx)
+        if not quick:
+            ctx.cov["exhaustive"] = ("single operations, exhaustively: bounded List traits (%d length/bounds/validator "
+                                     "configurations x the C05 grid with index bound 6: every mutator, int index -6..6, "
+                                     "slice over {None,-6..6}^2 x 10 steps, 9 replacement lists); every Set state over "
+                                     "{1,2,3} x every mutator x every argument subset of {1,2,3,'1',None} (<= 3 members); "
+                                     "every Dict state over keys {1,2} / values {1,2} x every mutator (update / |= with a "
+                                     "stride of the pair lists of length <= 2)" % len(cfgs))
     ok, log = join_proofs()
     proof_gate(ctx, ok, log, PROPS)
